@@ -6,7 +6,7 @@
    params_ok p  =  pow2 avg && min <= avg && avg <= max        (check_rabin_params)
                    && PREFILL_SLICE <= min && BUF_SIZE - 1 <= min   (forced by the proof). *)
 From Verif.Base Require Import Tactics.
-From Verif.C06 Require Import Extracted Model Spec ListLemmas Proofs Proofs2 Proofs3 Proofs4 Gf2 Proofs5 Gf2Tables Proofs6.
+From Verif.C06 Require Import Extracted Model Spec ListLemmas Proofs Proofs2 Proofs3 Proofs4 Gf2 Proofs5 Gf2Tables Proofs6 Proofs7 Proofs8 Proofs9.
 Local Open Scope N_scope.
 
 (* For EVERY read schedule (1-byte reads, short reads, Interrupted, any mixture), every size
@@ -145,3 +145,109 @@ Theorem cut_local : forall p s L, Forall isbyte s ->
   a_hash (win_at (tab_of p) p s L) = fp_direct (c_poly p) (ntake 64 (ndrop (L - 64) s)).
 Proof. exact cut_local_lemma. Qed.
 Print Assumptions cut_local.
+
+(* ---------------------------------------------------------------- deepening *)
+
+(* EVERY degree >= 8 (also 57..63, where `hash <<= 8` and `b << k` lose bits in u64): the rolling
+   hash is a function of the window alone - the from-scratch fold of the same one-byte step over
+   the window bytes (wfold).  The chunker is therefore content-defined for every polynomial; what
+   depends on the degree is only whether that function is the remainder modulo P. *)
+Theorem rolling_hash_is_window_function : forall P bits, 8 <= N.log2 P ->
+  forall bs xs, Forall isbyte bs -> Forall isbyte xs ->
+    length bs = (N.to_nat (t_wsize (rabin_tab bits P)) - 1)%nat ->
+    let w := fold_left (a_slide (rabin_tab bits P)) xs (a_init (rabin_tab bits P) bs) in
+    a_hash w = wfold (rabin_tab bits P) (a_fifo w).
+Proof. exact rolling_any_degree_lemma. Qed.
+Print Assumptions rolling_hash_is_window_function.
+
+Theorem cut_local_any_degree : forall p s L, Forall isbyte s ->
+  8 <= N.log2 (c_poly p) -> PREFILL_SLICE <= c_min p -> c_min p + 64 <= L -> L <= nlen s ->
+  a_hash (win_at (tab_of p) p s L) = wfold (tab_of p) (ntake 64 (ndrop (L - 64) s)).
+Proof. exact cut_local_any_degree_lemma. Qed.
+Print Assumptions cut_local_any_degree.
+
+(* ... and above degree 56 it is NOT the remainder: witness of degree 57 (the hash bits 56..k-1 are
+   dropped by `hash <<= 8` instead of being reduced).  Replayed on the real chunker: with such a
+   stored polynomial the unchanged tree cut at other positions than the Rabin fingerprint zeros. *)
+Theorem rolling_not_fingerprint_above_56_refuted :
+  exists P bs, N.log2 P = 57 /\ Forall isbyte bs /\ length bs = 63%nat /\
+    let T := rabin_tab WINDOW_BITS P in
+    let w := a_init T bs in
+    a_hash w <> fp_direct P (a_fifo w) /\ a_hash w = wfold T (a_fifo w).
+Proof. exact degree57_refuted_lemma. Qed.
+Print Assumptions rolling_not_fingerprint_above_56_refuted.
+
+(* The repaired tree uses a stored polynomial only if its degree is 8..56 (check_rabin_polynomial,
+   regenerated into Extracted.poly_accepts_src) ... *)
+Theorem accepted_poly_degree : forall P, poly_accepts P = true -> 8 <= N.log2 P /\ N.log2 P <= 56.
+Proof. exact accepted_poly_degree_lemma. Qed.
+Print Assumptions accepted_poly_degree.
+
+(* ... so for EVERY accepted configuration (polynomial and sizes) and every byte stream the first
+   chunk ends at the least L >= min at which L >= max, or the Rabin fingerprint modulo the
+   repository polynomial of the chunker's window (win_at) has its low bits zero, or the stream ends. *)
+Theorem accepted_cut_points_are_fingerprint_zeros : forall P avg mn mx s,
+  poly_accepts P = true -> rabin_accepts avg mn mx = true -> Forall isbyte s -> mn <= nlen s ->
+  let p := {| c_poly := P; c_avg := avg; c_min := mn; c_max := mx |} in
+  let L := N.of_nat (first_len (tab_of p) p s) in
+  mn <= L /\ L <= nlen s /\ is_cut_fp p s L = true /\
+  forall L', mn <= L' -> L' < L -> is_cut_fp p s L' = false.
+Proof. exact accepted_cut_points_lemma. Qed.
+Print Assumptions accepted_cut_points_are_fingerprint_zeros.
+
+(* The window, exactly.  From min + 64 on it is the most recent 64 bytes (cut_local).  For
+   min <= L <= min + 64 it is the last 64 of  0 :: s[min-64 .. min-1) ++ s[min .. L):  the byte
+   s[min-1] never enters it (reset_and_prefill_window consumes 63 of the 64 bytes it is given). *)
+Theorem window_near_min : forall p (s : bytes) L,
+  PREFILL_SLICE <= c_min p -> c_min p <= L -> L <= c_min p + 64 -> L <= nlen s ->
+  a_fifo (win_at (tab_of p) p s L)
+  = skipn (N.to_nat (L - c_min p)) (0 :: ntake 63 (ndrop (c_min p - 64) s))
+    ++ ntake (L - c_min p) (ndrop (c_min p) s).
+Proof. exact win_fifo_near. Qed.
+Print Assumptions window_near_min.
+
+(* OPEN FINDING (recorded, deliberately not repaired): the literal reading "the fingerprint of the
+   most recent 64 bytes has its low bits zero" fails at the positions min <= L < min + 64 of a
+   chunk.  Accepted parameters, a stream on which the code cuts at L = min although the last 64
+   bytes have a fingerprint with non-zero low bits. *)
+Theorem cut_is_fingerprint_of_last_64_bytes_refuted :
+  exists p s L,
+    rabin_accepts (c_avg p) (c_min p) (c_max p) = true /\
+    8 <= N.log2 (c_poly p) /\ N.log2 (c_poly p) <= 56 /\ Forall isbyte s /\
+    c_min p <= L /\ L < c_max p /\ L < nlen s /\
+    N.of_nat (first_len (tab_of p) p s) = L /\
+    N.land (a_hash (win_at (tab_of p) p s L)) (c_avg p - 1) = 0 /\
+    N.land (fp_direct (c_poly p) (ntake 64 (ndrop (L - 64) s))) (c_avg p - 1) <> 0.
+Proof. exact last64_refuted_lemma. Qed.
+Print Assumptions cut_is_fingerprint_of_last_64_bytes_refuted.
+
+(* The property's last clause, literally: two streams that share a suffix t cut it identically
+   after their first common cut (|a1| a cut of a1 ++ t, |a2| a cut of a2 ++ t). *)
+Theorem shared_suffix_cut_identically : forall p t a1 a2 pre1 post1 pre2 post2, params_ok p = true ->
+  cuts p (a1 ++ t) = pre1 ++ post1 -> concat pre1 = a1 ->
+  cuts p (a2 ++ t) = pre2 ++ post2 -> concat pre2 = a2 ->
+  post1 = post2 /\ post1 = cuts p t.
+Proof. exact shared_suffix_lemma. Qed.
+Print Assumptions shared_suffix_cut_identically.
+
+(* ... and for the iterator itself, accepted parameters, any two read schedules / hints / modes *)
+Theorem shared_suffix_cut_identically_impl :
+  forall P avg mn mx t a1 a2 pre1 post1 pre2 post2 md1 md2 h1 h2 sc1 sc2,
+  rabin_accepts avg mn mx = true ->
+  let p := {| c_poly := P; c_avg := avg; c_min := mn; c_max := mx |} in
+  chunks_impl md1 p h1 (a1 ++ t) sc1 = Ok (pre1 ++ post1) -> concat pre1 = a1 ->
+  chunks_impl md2 p h2 (a2 ++ t) sc2 = Ok (pre2 ++ post2) -> concat pre2 = a2 ->
+  post1 = post2.
+Proof. exact shared_suffix_impl_lemma. Qed.
+Print Assumptions shared_suffix_cut_identically_impl.
+
+(* ... and the converse: the most recent 64 bytes have a fingerprint with zero low bits at
+   L = min, yet the code does not cut there. *)
+Theorem fingerprint_zero_of_last_64_bytes_not_cut_refuted :
+  exists p s L,
+    rabin_accepts (c_avg p) (c_min p) (c_max p) = true /\ poly_accepts (c_poly p) = true /\
+    Forall isbyte s /\ c_min p <= L /\ L < c_max p /\ L < nlen s /\
+    N.land (fp_direct (c_poly p) (ntake 64 (ndrop (L - 64) s))) (c_avg p - 1) = 0 /\
+    is_cut (tab_of p) p s L = false /\ L < N.of_nat (first_len (tab_of p) p s).
+Proof. exact last64_zero_not_cut_lemma. Qed.
+Print Assumptions fingerprint_zero_of_last_64_bytes_not_cut_refuted.
